@@ -387,6 +387,8 @@ def eval_point(part, c, tap, rec, cfg, state, up, dist, si, ki, key, shuffle_fla
     base_order = ref if kind == 'simple' else mnames
     replicas = set(ref)
 
+    mutated = []
+
     def call(query_ks, working_ks, rk, perm):
         perm_cell[0] = perm
         del rec.plans[:]
@@ -394,6 +396,11 @@ def eval_point(part, c, tap, rec, cfg, state, up, dist, si, ki, key, shuffle_fla
         try:
             got = [name_of[h] for h in tap.make_query_plan(working_ks, q)]
         finally:
+            if list(mlist) != morig:
+                # the policy permuted the token map's own list: every later plan that is owed ring order
+                # (a non-shuffling policy of another execution profile, this one after a restart of the
+                # shuffle flag) would now be in that leftover order
+                mutated.append([name_of[h] for h in mlist])
             mlist[:] = morig
             perm_cell[0] = None
         if len(rec.plans) != 1:
@@ -420,6 +427,11 @@ def eval_point(part, c, tap, rec, cfg, state, up, dist, si, ki, key, shuffle_fla
             part.violation('C22/raises/%s/%s' % (tag, type(e).__name__), 'make_query_plan raised %r for %r' % (e, case_of('stmt', perm)),
                            case_of('stmt', perm))
             continue
+        if mutated:
+            part.violation('C22/shuffle/metadata-ring-order-destroyed',
+                           'shuffling the replicas permuted the list the token map hands out (now %r, ring order %r): later plans that are owed '
+                           'ring order get the leftover order; case %r' % (mutated[-1], mnames, case_of('stmt', perm)), case_of('stmt', perm))
+            del mutated[:]
         # a permutation acts on the list the metadata holds (if that list is not in ring order, the plain run reports it)
         order = base_order if perm is None else [mnames[i] for i in perm]
         first, rest = prescribed(order, replicas, up, dist, child_plan)
